@@ -164,10 +164,13 @@ SIM = {
         "designs": simcore_designs(["Inv_C07_NoDueLeft"]) + simrun_designs(["Inv_C07_NoDueLeft"]) + [
             # the latency machinery over a file carrying several markets (clock stepping back on re-delivered books,
             # requests for another market): 1.08 M states
-            {"module": "MC_Latency", "constants": {"Markets": '{"1.100000001", "1.100000002"}', "MaxTime": "8", "MaxReqs": "3"}, "view": "View",
+            {"module": "MC_Latency", "constants": {"Redeliver": "TRUE", "Markets": '{"1.100000001", "1.100000002"}', "MaxTime": "8", "MaxReqs": "3"}, "view": "View",
              "invariants": ["TypeOK", "Inv_C07_ExecutedWhenDue", "Inv_C07_FirstUpdateBeyondLatency", "Inv_C07_NoDueLeft", "Inv_C07_RedeliveryInert", "Inv_C07_PreviousBook", "Inv_C07_Timestamps"],
              "must_reach": ["Reach_CrossMarketExec", "Reach_ClockStepsBack", "Reach_CancelExecuted"]},
-            {"module": "MC_Latency", "constants": {"Markets": '{"1.100000001", "1.100000002", "1.100000003"}', "MaxTime": "7", "MaxReqs": "3"}, "view": "View", "tier": "thorough", "timeout": 3000,
+            {"module": "MC_Latency", "constants": {"Redeliver": "FALSE", "Markets": '{"1.100000001", "1.100000002"}', "MaxTime": "8", "MaxReqs": "3"}, "view": "View",
+             "invariants": ["TypeOK", "Inv_C07_ExecutedWhenDue", "Inv_C07_FirstUpdateBeyondLatency", "Inv_C07_NoDueLeft", "Inv_C07_RedeliveryInert", "Inv_C07_PreviousBook", "Inv_C07_Timestamps"],
+             "must_reach": ["Reach_CrossMarketExec", "Reach_CancelExecuted"]},
+            {"module": "MC_Latency", "constants": {"Redeliver": "TRUE", "Markets": '{"1.100000001", "1.100000002", "1.100000003"}', "MaxTime": "7", "MaxReqs": "3"}, "view": "View", "tier": "thorough", "timeout": 3000,
              "invariants": ["TypeOK", "Inv_C07_ExecutedWhenDue", "Inv_C07_FirstUpdateBeyondLatency", "Inv_C07_NoDueLeft", "Inv_C07_RedeliveryInert", "Inv_C07_PreviousBook", "Inv_C07_Timestamps"]}],
         "replay_latency": {"quick": 250, "thorough": 4000},
         "profiles": [{"p_raise": 0.06, "gaps": [1, 60, 119, 120, 121, 149, 150, 151, 169, 170, 171, 279, 280, 281, 1000, 1119, 1120, 1121, 5000], "p_inplay": 0.25, "bet_delays": [1, 2, 5, 12], "p_action": 0.7, "p_cancel": 0.35},
